@@ -29,7 +29,7 @@ class C04(Prop):
     engine_desc = ('E4 two real WebSockets (client, server) joined by in-memory reliable ordered byte channels under a deterministic scheduler with a reactive fair tail; '
                    'each endpoint run is replayed on the model as an E2 case (Protocol.run_ops)')
     rule = ('schedules: exhaustive interleavings of {write text, write binary, ping, flush, read, close} on both sides up to a bounded length with byte-granular deliveries (1, 2, all) and write WouldBlock windows, '
-            'simultaneous close, close with data/pings in flight, Close reasons of 122/123 bytes and pings of 124/125 bytes (the largest legal control frames), plus randomised long schedules; each followed by a fair tail (both flush+read everything, drop when told closed); distinct by pair trace')
+            'simultaneous close, close with data/pings in flight, Close reasons of 122/123 bytes and pings of 124/125 bytes (the largest legal control frames), plus randomised long schedules, also with a finite max_write_buffer_size (32..200) and Ping+Close back to back into a blocked writer; each followed by a fair tail (both flush+read everything, drop when told closed); distinct by pair trace')
     level_text = ('two-party close-handshake theorems on Pair.v (the Protocol model composed with reliable FIFO byte channels): safety for all schedules; liveness for the fair-rounds form; '
                   'endpoints tied to the code by E4/E2 correspondence, the channel is the stated assumption (reliable ordered transport)')
     level_note = 'Trusted: Coq kernel, Protocol.v + Pair.v, correspondence; liveness proved for canonical fair rounds (see props file for the exact statement)'
@@ -74,6 +74,23 @@ class C04(Prop):
             if not any(';c:' in x for x in a):
                 a.append(action(rng.choice('cs'), 'c:-'))
             out.append(pr_case('r%d' % k, a, wbs=rng.choice([0, 1, 600]), rbs=rng.choice([0, 1, 64, 4096]), seed=rng.randint(0, 2**32 - 1), tail=8)); k += 1
+        # finite max_write_buffer_size (large enough for the largest single frame of the schedule, as the property requires) with
+        # write-side WouldBlock windows: replies parked behind a full buffer when the peer's Ping is followed at once by its Close
+        small = ['wt:6869', 'wb:000102', 'wpi:70', 'f', 'r', 'c:-', 'c:1000:6279', 'wb:' + '00' * 20, 'wt:6869', 'r']
+        for i in range(300 if quick else 20000):
+            n = rng.randint(3, 20)
+            a = []
+            for _ in range(n):
+                sd = rng.choice('cs'); op = rng.choice(small)
+                a.append(action(sd, op, rng.choice(deliveries) if op == 'r' else None, rng.choice([0, 0, 1, 2, 4]) if op != 'r' else 0))
+            if rng.random() < 0.6:
+                # one side sends Ping then Close back to back; the other reads both in one go while its own writes are blocked
+                sd = rng.choice('cs'); other = 's' if sd == 'c' else 'c'
+                pos = rng.randint(0, len(a))
+                a[pos:pos] = [action(other, 'wb:' + '11' * 20, None, 3), action(sd, 'wpi:7071'), action(sd, 'c:-'), action(other, 'r', [1000], 0), action(other, 'r', [1000], 0)]
+            if not any(';c:' in x for x in a):
+                a.append(action(rng.choice('cs'), 'c:-'))
+            out.append(pr_case('m%d' % k, a, wbs=rng.choice([0, 0, 1, 16]), max_=rng.choice([32, 40, 64, 200]), rbs=rng.choice([0, 64, 4096]), seed=rng.randint(0, 2**32 - 1), tail=8)); k += 1
         return out
 
     def monitor(self, case_line, trace, mline):
